@@ -264,10 +264,16 @@ impl<'ast, 'res> Resolver<'ast, 'res> {
             }
             // Handle variable reassignment: <variable> get <expression>
             Stmt::AssignExisting { var, var_span, expr, .. } => {
-                if let Some((_, local_id)) = self.lookup_var_info(var) {
+                if let Some((declared, local_id)) = self.lookup_var_info(var) {
                     self.facts.record_stmt_local(stmt, local_id);
                     self.record_stmt_write(local_id);
                     self.record_capture_write(local_id);
+                    // The variable keeps its declared type only while what is assigned to it
+                    // has that type (`make foo` followed by `foo get 5`).
+                    let assigned = self.infer_expr_type(expr).unwrap_or(ValueType::Dynamic);
+                    if assigned != declared {
+                        self.widen_var_type(var);
+                    }
                 } else {
                     self.emit_error(
                         *var_span,
@@ -387,6 +393,18 @@ impl<'ast, 'res> Resolver<'ast, 'res> {
         self.variable_scopes.iter().rev().find_map(|scope| {
             scope.iter().rev().find(|(name, ..)| *name == var).map(|(_, t, _, id)| (*t, *id))
         })
+    }
+
+    /// Makes the innermost visible variable of that name dynamically typed.
+    fn widen_var_type(&mut self, var: &str) {
+        let slot = self
+            .variable_scopes
+            .iter_mut()
+            .rev()
+            .find_map(|scope| scope.iter_mut().rev().find(|(name, ..)| *name == var));
+        if let Some((_, var_type, ..)) = slot {
+            *var_type = ValueType::Dynamic;
+        }
     }
 
     #[inline]
